@@ -125,6 +125,7 @@ pub fn run(ctx: &mut Ctx) {
         let mut rng = ctx.rng(case);
         let mut cfg = cfg_for(ctx, case);
         cfg.big = false;
+        cfg.node_subject = case % 5 == 3;
         let (_m, e0) = universe(&mut rng, cfg, case);
         let key = fresh_key(&mut rng);
         let e = if rng.chance(1, 4) { gen::obscure_random(&e0, &mut rng, 2, &key) } else { e0 };
